@@ -4,6 +4,9 @@ import (
 	"encoding/base64"
 	"encoding/binary"
 	"fmt"
+	"sort"
+	"strconv"
+	"time"
 
 	"verif.local/harness/internal/mutate"
 	"verif.local/harness/internal/vio"
@@ -238,6 +241,24 @@ func concretise(c *GuardCase) (dec string, inputs [][]byte) {
 			return "post", [][]byte{t.b}
 		}
 		return "", nil
+
+	case "t2fan":
+		// depth levels of local subroutines; level i calls level i+1 fan times, the last one returns at once
+		// (subroutine numbers are stored minus the bias 107)
+		depth, fan := c.i("depth"), c.i("fan")
+		calls := func(k int) []byte {
+			var b []byte
+			for j := 0; j < fan; j++ {
+				b = append(append(b, mutate.T2Num(k-107)...), 10)
+			}
+			return b
+		}
+		var subrs [][]byte
+		for i := 0; i+1 < depth; i++ {
+			subrs = append(subrs, append(calls(i+1), 11))
+		}
+		subrs = append(subrs, []byte{11})
+		return "cff", [][]byte{mutate.CFFWithCharstrings([][]byte{append(calls(0), 14)}, nil, subrs)}
 
 	case "t2op":
 		var cs []byte
@@ -485,8 +506,21 @@ func cmdGuards(casesPath, tracePath string) {
 	out := vio.NewOut(tracePath)
 	out.Emit(map[string]any{"ev": "replay", "cells": 0})
 	siteCache := map[string]string{}
-	for id, c := range cases {
-		c := c
+	// cases that may run into the watchdog come last, cheapest first: a call that never returns keeps its
+	// goroutine busy and would disturb the allocation measurements of whatever runs after it
+	order := make([]int, len(cases))
+	for i := range order {
+		order[i] = i
+	}
+	cost := func(c *GuardCase) int {
+		if c.Guard != "t2fan" {
+			return 0
+		}
+		return 1 + c.i("depth")*100 + c.i("fan")
+	}
+	sort.SliceStable(order, func(a, b int) bool { return cost(&cases[order[a]]) < cost(&cases[order[b]]) })
+	for _, id := range order {
+		c := cases[id]
 		dec, inputs := concretise(&c)
 		pred := "reject"
 		if c.Hole {
@@ -495,7 +529,16 @@ func cmdGuards(casesPath, tracePath string) {
 			pred = "accept"
 		}
 		for v, in := range inputs {
-			r := mutate.Run(dec, in)
+			// a watchdog like the one of the fault plan: a call that does not return is an outcome ("timeout"), its
+			// goroutine cannot be stopped and keeps running until the process ends
+			var r *mutate.Result
+			done := make(chan *mutate.Result, 1)
+			go func(in []byte) { done <- mutate.Run(dec, in) }(in)
+			select {
+			case r = <-done:
+			case <-time.After(time.Duration(timeoutMS()) * time.Millisecond):
+				r = &mutate.Result{Outcome: "timeout", Msg: "no return within " + strconv.FormatInt(timeoutMS(), 10) + " ms"}
+			}
 			ev := GuardEvent{Ev: "guard", ID: id, Guard: c.Guard, Variant: v, Pred: pred, Dec: dec, InLen: len(in), Outcome: r.Outcome,
 				AllocKiB: r.AllocKiB, Site: r.Site, Msg: r.Msg, NAcc: r.NAccOK, BadAcc: r.BadAcc}
 			if ev.BadAcc == nil {
@@ -511,7 +554,7 @@ func cmdGuards(casesPath, tracePath string) {
 				}
 				ev.Site = siteCache[c.Guard]
 			}
-			if (r.Outcome == "panic" || len(r.BadAcc) > 0 || overBudget(r.AllocKiB, len(in))) && len(in) <= 1<<18 {
+			if (r.Outcome == "panic" || r.Outcome == "timeout" || len(r.BadAcc) > 0 || overBudget(r.AllocKiB, len(in))) && len(in) <= 1<<18 {
 				ev.Data = base64.StdEncoding.EncodeToString(in)
 			}
 			out.Emit(ev)
